@@ -180,7 +180,7 @@ def r2(ctx, cfg):
     lit, attrs, bulk = parse_event(wasm[0].expr)
     ok = lit == ("const", "str", "wasm") and len(attrs) == 1 and peel(attrs[0][0]) == CONTRACT_ATTR and \
         is_param(attrs[0][1], "contract") and len(bulk) == 1 and \
-        contains(bulk[0], lambda x: x[0] == "field" and x[2] == "attributes" and is_param(x[1], "response"))
+        just(bulk[0], lambda x: is_param_field(x, "response", "attributes"))     # (as they are, in their order: not sorted / filtered in place)
     ctx.ob(R, key, "wasm-event-shape", ok,
            "wasm event must be Event::new(\"wasm\") + (_contract_address, contract) + the response's attributes", fn=f,
            sample="Event::new('wasm').add_attribute(CONTRACT_ATTR, contract).add_attributes(attributes)")
